@@ -231,7 +231,7 @@ def parse_cbmc(out):
     return res
 
 
-def portfolio(gb, q, work, logdir):
+def portfolio(gb, q, work, logdir, witness=False):
     """run the back-ends in parallel; first conclusive answer wins"""
     procs = {}
     t0 = time.time()
@@ -242,16 +242,19 @@ def portfolio(gb, q, work, logdir):
     os.makedirs(env['TMPDIR'], exist_ok=True)
     base = ['cbmc', gb, '--function', q.entry, '--unwind', str(q.unwind), '--unwinding-assertions',
             '--no-malloc-may-fail', '--drop-unused-functions', '--trace']
+    if witness:
+        base = ['cbmc', gb, '--function', q.entry, '--unwind', str(q.unwind), '--no-standard-checks', '--no-malloc-may-fail', '--drop-unused-functions']
     if q.unwindset:
         base += ['--unwindset', ','.join(q.unwindset)]
     if q.object_bits:
         base += ['--object-bits', str(q.object_bits)]
-    if q.leak:
+    if q.leak and not witness:
         base += ['--memory-leak-check']
-    base += q.extra
+    if not witness:
+        base += q.extra
     memlimit = int(os.environ.get('SYMX_MEM_KB', str(20 * 1024 * 1024)))
     for b in q.backends:
-        logf = os.path.join(logdir, q.slug() + '.' + b + '.log')
+        logf = os.path.join(logdir, q.slug() + ('.witness.' if witness else '.') + b + '.log')
         cmd = 'ulimit -v %d; exec %s' % (memlimit, ' '.join(_sh(a) for a in base + BACKEND_FLAGS[b]))
         f = open(logf, 'w')
         p = subprocess.Popen(['bash', '-c', cmd], stdout=f, stderr=subprocess.STDOUT, env=env, cwd=work, preexec_fn=_solver_preexec)
@@ -350,22 +353,15 @@ def prepare(q, work):
 
 
 def witness_run(gbw, q, work, logdir):
-    logf = os.path.join(logdir, q.slug() + '.witness.log')
-    cmd = ['cbmc', gbw, '--function', q.entry, '--unwind', str(q.unwind), '--no-standard-checks',
-           '--no-malloc-may-fail', '--drop-unused-functions']
-    if q.unwindset:
-        cmd += ['--unwindset', ','.join(q.unwindset)]
-    if q.object_bits:
-        cmd += ['--object-bits', str(q.object_bits)]
+    """reachability witness twin: same program with a final assert(false) that must FAIL; same back-end portfolio as the query
+    (one back-end alone can take 100x longer on the same formula)"""
     t0 = time.time()
-    try:
-        r = subprocess.run(cmd, stdout=subprocess.PIPE, stderr=subprocess.STDOUT, universal_newlines=True,
-                           timeout=max(q.cap, 60), cwd=work)
-        out = r.stdout
-    except subprocess.TimeoutExpired as e:
-        out = (e.stdout or '') + '\nSYMX witness timeout\n'
-    open(logf, 'w').write(out)
-    ok = bool(re.search(r'SYMX-WITNESS reached: FAILURE', out))
+    res = portfolio(gbw, q, work, logdir, witness=True)
+    ok = False
+    if res.get('verdict') == 'fail':
+        logs = res.get('log')
+        out = open(logs, errors='replace').read() if isinstance(logs, str) else ''
+        ok = bool(re.search(r'SYMX-WITNESS reached: FAILURE', out))
     return ok, round(time.time() - t0, 2)
 
 
